@@ -33,7 +33,11 @@ def alphabet():
     for t in tags:
         tagtok += ["<%s>" % t, "</%s>" % t, "<%s/>" % t, "<%s />" % t.upper(),
                    "<%s class=\"a b\" id='c' x=y>" % t, "<%s style=\"color:'red'\">" % t,
-                   "<%s a=\"b>" % t, "<%s a=>" % t, "<%s a b c>" % t, "</%s >" % t, "<%s\n>" % t]
+                   "<%s a=\"b>" % t, "<%s a=>" % t, "<%s a b c>" % t, "</%s >" % t, "<%s\n>" % t,
+                   # constructs that the preprocessor turns into magic characters, INSIDE the tag
+                   "<%s class=\"a{{ta|x}}\">" % t, "<%s id=<nowiki/>>" % t, "<%s title=\"[[x]]\" x='{{{1}}}'>" % t,
+                   "<%s class=\"a<nowiki>b</nowiki>\">" % t, "<%s data-x=\"[http://x y]\" />" % t,
+                   "<%s class=\"<!-- c -->{{PAGENAME}}\">" % t, "<%s {{ta}}>" % t]
     placeholders = [chr(MAGIC_FIRST), chr(MAGIC_FIRST + 1), chr(MAGIC_FIRST + 7), chr(MAGIC_LAST), chr(0x10203E),
                     chr(0x10203F), chr(0x102040)]
     return {"fixed": fixed, "magic": magic, "urls": urls, "tags": tagtok, "placeholders": placeholders}
